@@ -25,6 +25,7 @@ import time
 
 ROOT = os.path.dirname(os.path.dirname(os.path.abspath(__file__)))
 sys.path.insert(0, os.path.join(ROOT, 'fe'))
+sys.path.insert(0, os.path.join(ROOT, 'bin'))
 import bs2c  # noqa: E402
 from cxxtypes import ExtractionError  # noqa: E402
 
@@ -36,6 +37,8 @@ JOBS = int(os.environ.get('BSV_JOBS', '8'))
 CBMC_FLAGS = ['--bounds-check', '--pointer-check', '--signed-overflow-check', '--conversion-check',
               '--div-by-zero-check', '--unwind', '24', '--unwinding-assertions', '--object-bits', '12']
 SOLVERS = ['cvc5', 'z3']
+# shim functions that exist only as (assumed) contracts taken from the C++ standard
+SHIM_CONTRACTS = ['bs_lower_bound']
 
 
 class Undecided(Exception):
@@ -73,13 +76,37 @@ class Block:
 TAG_RE = re.compile(r'^\[([A-Za-z0-9 ]+)\]\s*')
 
 
+import spec_py  # noqa: E402  (template helper functions: cauchy(), evalp(), ...)
+TENV = {'max': max, 'min': min}
+TENV.update({k: getattr(spec_py, k) for k in dir(spec_py) if not k.startswith('_')})
+
+
 def _subst(text, env):
     def rep(m):
         try:
-            return str(eval(m.group(1), {'max': max, 'min': min}, dict(env)))
+            return str(eval(m.group(1), dict(TENV), dict(env)))
         except Exception as e:
             raise Undecided('template expression {%s}: %s' % (m.group(1), e))
     return re.sub(r'\{\{(.+?)\}\}', rep, text)
+
+
+def _replicate(text, env):
+    """'@K in 0..{{N}}: clause'  ->  one clause per value of K (may be nested)"""
+    m = re.match(r'@(\w+) in (.+?):\s*(.*)$', text)
+    if not m:
+        return [(env, text)]
+    var, dom, rest = m.group(1), _subst(m.group(2), env), m.group(3)
+    if '..' in dom:
+        a, b = dom.split('..')
+        vals = list(range(int(a), int(b) + 1))
+    else:
+        vals = [int(x) for x in dom.split(',') if x.strip()]
+    out = []
+    for v in vals:
+        e2 = dict(env)
+        e2[var] = v
+        out += _replicate(rest, e2)
+    return out
 
 
 def parse_ctr(path):
@@ -128,7 +155,7 @@ def parse_ctr(path):
                     for v in vals:
                         e2 = dict(e)
                         e2[var] = v
-                        if cond is None or eval(cond, {'max': max, 'min': min}, dict(e2)):
+                        if cond is None or eval(cond, dict(TENV), dict(e2)):
                             new.append(e2)
                 envs = new
             for env in envs:
@@ -138,8 +165,8 @@ def parse_ctr(path):
                 b.file, b.line = path, head['line']
                 b.env = env
                 for ln2, k2, r2 in head['clauses']:
-                    r2 = _subst(r2, env)
-                    add_clause(b, k2, r2, path, ln2)
+                    for env2, r3 in _replicate(r2, env):
+                        add_clause(b, k2, _subst(r3, env2), path, ln2)
                 blocks.append(b)
             head = None
             continue
@@ -196,6 +223,10 @@ def add_clause(b, kw, rest, path, ln):
         b.args[nm] = val.strip()
     elif kw == 'timeout':
         b.timeout = int(rest)
+    elif kw == 'unwind':
+        b.unwind = int(rest)
+    elif kw == 'define':
+        b.defines = getattr(b, 'defines', []) + rest.split()
     elif kw == 'tier':
         b.tier = rest
     elif kw == 'bounded':
@@ -292,6 +323,7 @@ def get_unit(unit, blocks, mode):
             ctrs[b.name] = loop_clauses(b)
     u.contracts = ctrs
     u.cty(bs2c.parse_type('std::shared_ptr<std::vector<double>>'))
+    u.cty(bs2c.Ty('__gnu_cxx::__normal_iterator', [bs2c.Ty('double'), bs2c.Ty('std::vector', [bs2c.Ty('double')])]))
     _units[key] = u
     return u
 
@@ -462,12 +494,15 @@ def cbmc_cmd(gb, solver, extra):
     return ['cbmc', flag] + CBMC_FLAGS + extra + [gb]
 
 
+_uniq = itertools.count()
+
+
 def portfolio(gb, solvers, extra, timeout):
     """run the solvers in parallel; the first one that gives a definitive answer wins, the others are killed"""
     procs = []
     t0 = time.time()
     for s in solvers:
-        outp = '%s.%s.%d.out' % (gb, s, len(extra))
+        outp = '%s.%s.%d.out' % (gb, s, next(_uniq))
         f = open(outp, 'w')
         p = subprocess.Popen(['bash', '-c', 'ulimit -v %d; exec "$@"' % MEMLIMIT_KB, 'sh'] + cbmc_cmd(gb, s, extra),
                              stdout=f, stderr=subprocess.PIPE, env=solver_env(s), start_new_session=True)
@@ -514,6 +549,120 @@ def portfolio(gb, solvers, extra, timeout):
         outs.remove(winner)
         outs.insert(0, winner)
     return outs
+
+
+def prepare_loops(gb_in, gb_out, ctext, cfile, b):
+    """dfcc's --apply-loop-contracts mis-handles loops that have no contract (locals assigned in them are
+    reported as not assignable), so when a unit has contracted loops every other loop -- they all have
+    template-constant bounds -- is unwound beforehand by goto-instrument, with unwinding assertions."""
+    lines = ctext.split('\n')
+    contracted = set()
+    for i, l in enumerate(lines):
+        if re.match(r'\s*(for|while) \(', l) and i + 1 < len(lines) and re.match(r'\s*__CPROVER_(assigns|loop_invariant|decreases)\(', lines[i + 1]):
+            contracted.add(i + 1)
+    if not contracted:
+        return gb_in, []
+    rc, out, err, dt = sh(['goto-instrument', '--show-loops', gb_in], 120)
+    ids = []
+    for m in re.finditer(r'Loop (\S+):\n\s+file (\S+) line (\d+) function', out):
+        lid, f, ln = m.group(1), m.group(2), int(m.group(3))
+        if os.path.abspath(f) == os.path.abspath(cfile) and ln in contracted:
+            continue
+        ids.append(lid)
+    if not ids:
+        return gb_in, ['--apply-loop-contracts']
+    k = getattr(b, 'unwind', None) or 10
+    rc, out, err, dt = sh(['goto-instrument', '--unwindset', ','.join('%s:%d' % (i, k) for i in ids),
+                           '--unwinding-assertions', gb_in, gb_out], 300)
+    if rc != 0:
+        raise Undecided('pre-unwinding failed: ' + (err + out)[-800:])
+    return gb_out, ['--apply-loop-contracts']
+
+
+FAST_TIMEOUT = int(os.environ.get('BSV_FAST_TIMEOUT', '45'))
+HARD_RE = re.compile(r'\.(postcondition|loop_invariant_base|loop_invariant_step|loop_decreases|assertion|precondition|loop_step_unwinding)\.')
+
+
+def list_properties(gb):
+    rc, out, err, dt = sh(['cbmc'] + CBMC_FLAGS + ['--show-properties', gb], 120)
+    ids = re.findall(r'^Property (\S+):', out, re.M)
+    return ids
+
+
+def decide(gb, b, tmo):
+    """all obligations of one instrumented program: first in one query per solver; if no solver settles
+    that within FAST_TIMEOUT, obligation by obligation (the conjunction is often much harder than its parts)"""
+    solvers = b.solvers or SOLVERS
+    outs = portfolio(gb, solvers, [], min(tmo, FAST_TIMEOUT))
+    if outs and outs[0]['status'] == 'done' and all(x.get('status') in ('SUCCESS', 'FAILURE') for x in outs[0]['results']):
+        for p in outs[0]['results']:
+            p['solver'] = outs[0]['solver']
+        return outs[0]['results'], 'single query, ' + outs[0]['solver']
+    props = list_properties(gb)
+    if not props:
+        return None, '; '.join('%s:%s %s' % (o['solver'], o['status'], (o.get('msg') or '')[:200]) for o in outs)
+    hard = [p for p in props if HARD_RE.search(p) and '__CPROVER_contracts' not in p]
+    easy = [p for p in props if p not in hard]
+    merged = {}
+
+    def one(plist):
+        extra = []
+        for p in plist:
+            extra += ['--property', p]
+        o = portfolio(gb, solvers, extra, tmo)
+        return plist, o
+    groups = [[p] for p in hard] + ([easy] if easy else [])
+    with cf.ThreadPoolExecutor(max_workers=6) as ex:
+        for plist, o in ex.map(one, groups):
+            got = {}
+            for cand in o:
+                if cand['status'] == 'done':
+                    for x in cand['results']:
+                        if x.get('status') in ('SUCCESS', 'FAILURE') and x['property'] not in got:
+                            x['solver'] = cand['solver']
+                            got[x['property']] = x
+                        elif x['property'] not in got:
+                            merged.setdefault(x['property'], dict(x, solver=cand['solver']))
+            for k, v in got.items():
+                merged[k] = v
+            for p in plist:
+                if p not in merged:
+                    merged[p] = {'property': p, 'description': 'no answer (timeout or solver error)', 'status': 'UNKNOWN',
+                                 'sourceLocation': {}, 'solver': None}
+    return list(merged.values()), 'obligation by obligation (%d separate queries)' % len(groups)
+
+
+def refute_small(r, b, cfile, hname, cmd, ids, tmo):
+    base = r.base
+    defs = ['-D' + d for d in getattr(b, 'defines', [])]
+    rc, out, err, dt = sh(['goto-cc', '--function', hname, '-DBS_CANARY()=', '-DBS_SMALLGRID=1'] + defs + ['-o', base + '.s.gb', cfile], 120)
+    if rc != 0:
+        return set()
+    ctext = open(cfile).read()
+    try:
+        src_gb, _ = prepare_loops(base + '.s.gb', base + '.su.gb', ctext, cfile, b)
+    except Undecided:
+        return set()
+    cmd2 = list(cmd)
+    cmd2[-2], cmd2[-1] = src_gb, base + '.t.gb'
+    rc, out, err, dt = sh(cmd2, 300)
+    if rc != 0:
+        return set()
+    failed = set()
+
+    def one(p):
+        o = portfolio(base + '.t.gb', b.solvers or SOLVERS, ['--property', p], min(tmo, 120))
+        for cand in o:
+            if cand['status'] == 'done':
+                for x in cand['results']:
+                    if x['property'] == p and x.get('status') == 'FAILURE':
+                        return p
+        return None
+    with cf.ThreadPoolExecutor(max_workers=6) as ex:
+        for p in ex.map(one, ids):
+            if p:
+                failed.add(p)
+    return failed
 
 
 class BlockResult:
@@ -586,7 +735,8 @@ def run_block(r, blocks, keep=False, verbose=False):
     t0 = time.time()
     base, cfile, hname, linemap = r.base, r.cfile, r.hname, r.linemap
     tmo = b.timeout or TIMEOUT
-    rc, out, err, dt = sh(['goto-cc', '--function', hname, '-DBS_CANARY()=', '-o', base + '.a.gb', cfile], 120)
+    defs = ['-D' + d for d in getattr(b, 'defines', [])]
+    rc, out, err, dt = sh(['goto-cc', '--function', hname, '-DBS_CANARY()='] + defs + ['-o', base + '.a.gb', cfile], 120)
     if rc != 0:
         r.reason = 'goto-cc failed: ' + (err or out)[-1500:]
         return r
@@ -595,46 +745,74 @@ def run_block(r, blocks, keep=False, verbose=False):
         cmd += ['--enforce-contract', b.name]
     for g in b.replace:
         cmd += ['--replace-call-with-contract', g]
-    cmd += ['--apply-loop-contracts', base + '.a.gb', base + '.b.gb']
+    ctext = open(cfile).read()
+    body_text = ctext[ctext.index('#include "%s/rt/harness.h"' % ROOT):]
+    for shim in SHIM_CONTRACTS:
+        if re.search(r'\b%s\(' % shim, body_text):
+            cmd += ['--replace-call-with-contract', shim]
+    try:
+        src_gb, loop_flags = prepare_loops(base + '.a.gb', base + '.u.gb', ctext, cfile, b)
+    except Undecided as e:
+        r.reason = str(e)
+        return r
+    r.loop_flags = loop_flags
+    cmd += loop_flags + [src_gb, base + '.b.gb']
     rc, out, err, dt = sh(cmd, 300)
     if rc != 0:
         r.reason = 'goto-instrument failed: ' + (err + out)[-1500:]
         return r
-    outs = portfolio(base + '.b.gb', b.solvers or SOLVERS, [], tmo)
-    done = [o for o in outs if o['status'] == 'done']
-    if not done:
-        r.reason = 'no solver decided: ' + '; '.join('%s:%s %s' % (o['solver'], o['status'], o.get('msg', '')[:300]) for o in outs)
+    results, how = decide(base + '.b.gb', b, tmo)
+    r.how = how
+    if results is None:
+        r.reason = 'no solver decided: ' + how
         r.time = time.time() - t0
         return r
-    o = done[0]
-    r.solver = o['solver']
-    for p in o['results']:
+    for p in results:
         r.obligations.append({'id': p.get('property'), 'desc': p.get('description'), 'status': p.get('status'),
                               'tags': sorted(classify(p, linemap, hname)),
                               'line': (p.get('sourceLocation') or {}).get('line'),
-                              'solver': o['solver']})
-    bad = [x for x in r.obligations if x['status'] != 'SUCCESS']
-    if any(re.search(r'ignoring|unknown', o.get('msg', '') or '', re.I) for o in [o]):
-        r.reason = 'solver warning: ' + o['msg'][:300]
-        r.status = 'undecided'
-    elif not r.obligations:
+                              'solver': p.get('solver')})
+    r.solver = ','.join(sorted({p.get('solver') or '?' for p in results}))
+    bad = [x for x in r.obligations if x['status'] == 'FAILURE']
+    und = [x for x in r.obligations if x['status'] not in ('SUCCESS', 'FAILURE')]
+    if und and not bad:
+        # refutation attempt in the quantifier-free small instance (grids of at most 4 points): a failure
+        # there is a failure of the general obligation, a success there proves nothing
+        rf = refute_small(r, b, cfile, hname, cmd, [x['id'] for x in und], tmo)
+        for x in r.obligations:
+            if x['id'] in rf:
+                x['status'] = 'FAILURE'
+                x['refuted_in'] = 'instance with grids of at most 4 points (quantifier-free)'
+        bad = [x for x in r.obligations if x['status'] == 'FAILURE']
+        und = [x for x in r.obligations if x['status'] not in ('SUCCESS', 'FAILURE')]
+    if not r.obligations:
         r.reason = 'no obligations generated'
     elif bad:
         r.status = 'failed'
         r.reason = ', '.join(x['id'] for x in bad[:6])
+    elif und:
+        r.status = 'undecided'
+        r.reason = 'solver gave no answer for: ' + ', '.join(x['id'] for x in und[:6])
     else:
         r.status = 'proved'
     # vacuity canary: the end of the harness must be reachable under the preconditions
     if r.status == 'proved':
         rc, out, err, dt = sh(['goto-cc', '--function', hname,
                                '-DBS_CANARY()=__CPROVER_assert(0, "[canary] end of harness reachable")',
-                               '-o', base + '.c.gb', cfile], 120)
-        cmd[-2], cmd[-1] = base + '.c.gb', base + '.d.gb'
+                               '-DBS_SMALLGRID=1'] + defs + ['-o', base + '.c.gb', cfile], 120)
+        try:
+            src_gb2, _ = prepare_loops(base + '.c.gb', base + '.cu.gb', ctext, cfile, b)
+        except Undecided:
+            src_gb2 = base + '.c.gb'
+        cmd[-2], cmd[-1] = src_gb2, base + '.d.gb'
         rc2, out2, err2, dt2 = sh(cmd, 300)
         if rc != 0 or rc2 != 0:
             r.status, r.reason = 'undecided', 'canary build failed'
         else:
-            co = portfolio(base + '.d.gb', b.solvers or SOLVERS, ['--property', hname + '.assertion.1'], tmo)
+            n_assert = sum(x.count('__CPROVER_assert(') for x in (b.body + b.post)) + 1
+            co = portfolio(base + '.d.gb', b.solvers or SOLVERS, ['--property', '%s.assertion.%d' % (hname, n_assert)], tmo)
+            if any(x['status'] == 'done' and not any('[canary]' in (p.get('description') or '') for p in x['results']) for x in co):
+                co = [{'solver': '-', 'status': 'error', 'msg': 'canary property not found'}]
             cd = [x for x in co if x['status'] == 'done']
             if cd and any(p.get('status') == 'FAILURE' for p in cd[0]['results']):
                 r.canary = 'reachable'
@@ -644,7 +822,7 @@ def run_block(r, blocks, keep=False, verbose=False):
             else:
                 # cbmc may abort while decoding a model (DESIGN R8): an abort after "sat" still means reachable
                 errs = ' '.join(x.get('msg', '') for x in co)
-                r.canary = 'reachable(abort)' if 'pointer_logic' in errs or any(x['status'] == 'error' for x in co) else 'unknown'
+                r.canary = 'reachable(abort)' if 'pointer_logic' in errs else 'unknown'
                 if r.canary == 'unknown':
                     r.status, r.reason = 'undecided', 'canary undecided'
     r.time = time.time() - t0
